@@ -60,7 +60,7 @@ impl Property for C17 {
     }
     fn tape_len(&self, _tier: Tier) -> usize { 60 }
     fn cases(&self, tier: Tier) -> u32 { tier.pick(40_000, 1_000_000) }
-    fn required_labels(&self, _tier: Tier) -> Vec<&'static str> { vec!["format:1", "format:3", "format:5", "format:7", "offset", "dir-roundtrip", "anm-source", "precedence", "shared-path", "multi-entry", "exhaustive-16bit"] }
+    fn required_labels(&self, _tier: Tier) -> Vec<&'static str> { vec!["format:1", "format:3", "format:5", "format:7", "offset", "dir-roundtrip", "anm-source", "precedence", "precedence-format", "shared-path", "multi-entry", "exhaustive-16bit"] }
     fn max_discard_fraction(&self) -> f64 { 0.05 }
 
     fn fixed_cases(&self, _tier: Tier, _known: &Known) -> Vec<Value> {
@@ -76,7 +76,7 @@ impl Property for C17 {
 
     fn generate(&self, tape: &mut Tape, _tier: Tier, _known: &Known) -> Value {
         let game = *tape.pick(&["th12", "th06", "th07", "th08", "th10", "th14", "th18", "th11"]);
-        let mode = *tape.pick(&["roundtrip", "roundtrip", "precedence", "shared-path"]);
+        let mode = *tape.pick(&["roundtrip", "roundtrip", "precedence", "shared-path", "precedence-format"]);
         let n = if mode == "shared-path" { 2 } else { 1 + tape.below(3) };
         let entries: Vec<Value> = (0..n).map(|i| {
             let path = if mode == "shared-path" { "same.png".to_string() } else { format!("{}img{}.png", if tape.chance(1, 3) { "sub/" } else { "" }, i) };
@@ -92,7 +92,10 @@ impl Property for C17 {
         }).collect();
         // precedence: which sources, in which order (A = anm with the original pixels, B = anm with other pixels, D = directory extracted from A, E = directory extracted from B)
         let order: Vec<&str> = { let mut v = vec!["A", "B", "D", "E"]; for i in (1..v.len()).rev() { let j = tape.below(i + 1); v.swap(i, j); } v.truncate(2 + tape.below(2)); v };
-        json!({"mode": mode, "game": game, "entries": entries, "order": order})
+        // precedence-format: the ANM sources differ in pixel format too, and the script leaves the image metadata to the sources
+        let alt_formats: Vec<Vec<u32>> = (0..3).map(|_| (0..n).map(|_| *tape.pick(&[1u32, 3, 5, 7])).collect()).collect();
+        let nsrc = 2 + tape.below(2);
+        json!({"mode": mode, "game": game, "entries": entries, "order": order, "alt_formats": alt_formats, "nsrc": nsrc})
     }
 
     fn check(&self, case: &Value, ctx: &mut CheckCtx) -> Outcome {
@@ -157,6 +160,32 @@ impl Property for C17 {
                     ctx.label("precedence"); ctx.nontrivial();
                     let expect = if matches!(order.last().unwrap().as_str(), "A" | "D") { &a } else { &b2 };
                     if let Some(m) = sections_equal(expect, &r) { return Err(fail("last-source-does-not-win", format!("sources {:?}: {}", order, m))); }
+                }
+                "precedence-format" => {
+                    // 2..3 ANM sources with the same paths and dimensions but their own pixel formats and pixels; the script gives
+                    // no image metadata, so everything comes from the sources: the last source's textures must be copied verbatim
+                    let nsrc = case["nsrc"].as_u64().unwrap_or(2) as usize;
+                    let mut srcs: Vec<Vec<u8>> = vec![];
+                    for k in 0..nsrc {
+                        let fk: Vec<u32> = case["alt_formats"][k].as_array().unwrap().iter().map(|x| x.as_u64().unwrap() as u32).collect();
+                        let sp: Vec<EntrySpec> = specs.iter().zip(&fk).map(|(s, f)| EntrySpec { path: s.path.clone(), format: *f, w: s.w, h: s.h, ox: s.ox, oy: s.oy }).collect();
+                        let t = source_text(game, &sp, "\"dummy\"");
+                        let mut b = compile(game, &t, vec![]).map_err(|e| fail("harness-source-rejected", e))?;
+                        for ((off, len), (s2, e)) in thtx_sections(&b).iter().zip(sp.iter().zip(case["entries"].as_array().unwrap())) {
+                            let data = pixel_data(s2.format, s2.w, s2.h, e["style"].as_u64().unwrap_or(0), e["seed"].as_u64().unwrap_or(0).wrapping_add(1000 * k as u64));
+                            b[off + 16..off + len].copy_from_slice(&data);
+                        }
+                        srcs.push(b);
+                    }
+                    let g2 = files::game_from_str(game);
+                    let mut bare = String::new();
+                    for (i, e) in specs.iter().enumerate() {
+                        let offs = if g2 >= truth::Game::Th11 && (e.ox > 0 || e.oy > 0) { format!("    offset_x: {},\n    offset_y: {},\n", e.ox, e.oy) } else { String::new() };
+                        bare.push_str(&format!("entry {{\n    path: \"{}\",\n    has_data: true,\n{}    sprites: {{sprite{}: {{x: 0.0, y: 0.0, w: 1.0, h: 1.0}}}},\n}}\n\n", e.path, offs, i));
+                    }
+                    let r = compile(game, &bare, srcs.iter().map(|b| ImageSrc::AnmBytes(b.clone())).collect()).map_err(|e| fail("recompile-with-several-sources-failed", e))?;
+                    ctx.label("precedence-format"); ctx.nontrivial();
+                    if let Some(m) = sections_equal(srcs.last().unwrap(), &r) { return Err(fail("last-anm-source-not-copied-verbatim", format!("{} ANM sources with formats {}: {}", nsrc, case["alt_formats"], m))); }
                 }
                 _ => {
                     // two entries, one path, different pixels (and possibly different sizes): the ANM source matches them in order
